@@ -73,6 +73,23 @@ class ExprMixin:
                 m = load.find_method(h.cls[0], h.cls[1], "__bool__") or load.find_method(h.cls[0], h.cls[1], "__len__")
                 if m is None:
                     return z3.BoolVal(True)
+                # evaluate the real __bool__/__len__ when that is deterministic (single path)
+                try:
+                    f = VFunc(m[2], load.get_module(m[0]), None, f"{m[1]}.{m[2].name}", (m[0], m[1]))
+                    probe = st.fork()
+                    res = self.call_function(probe, f, [], {}, self_val=v)
+                    if len(res) == 1 and not isinstance(res[0][1], Raised):
+                        r = res[0][1]
+                        for extra in res[0][0].pc[len(st.pc):]:
+                            st.pc.append(extra)  # facts assumed by library models (e.g. len >= 0)
+                        if m[2].name == "__len__":
+                            n = self.num_term(r)
+                            if n is not None:
+                                return n > 0
+                        else:
+                            return self.truth(res[0][0], r)
+                except Unsupported:
+                    pass
                 return self.ref_truth(st, z3.IntVal(v.addr))
             return z3.BoolVal(True)
         raise Unsupported(f"truthiness of {v!r}")
